@@ -25,6 +25,16 @@ Proof.
   apply ContainerProofs.array_literal_order.
 Qed.
 
+(* the nesting test of the call instruction, as a proposition *)
+Lemma depth_ok : forall d : nat,
+  (max_call_depth = 0 \/ N.of_nat d < max_call_depth) ->
+  negb (max_call_depth =? 0) && (max_call_depth <=? N.of_nat d) = false.
+Proof.
+  intros d [H|H].
+  - rewrite H. reflexivity.
+  - apply N.leb_gt in H. rewrite H. apply andb_false_r.
+Qed.
+
 Section Call.
 Variables (o : stdlib) (consts : list value) (funcs : list (str * ufunc)) (fns : fnmap) (obj : hostval).
 Notation ex := (exec o consts funcs fns obj).
@@ -55,9 +65,11 @@ Lemma exec_call : forall k code ip m name n args s,
       | None => (OErr EScript, set_stk m s)
       | Some uf =>
           if negb (Nat.eqb (List.length (fparams uf)) (List.length args)) then (OErr EScript, set_stk m s)
+          else if negb (max_call_depth =? 0) && (max_call_depth <=? N.of_nat (env_depth (menv m)))
+          then (OErr EScript, set_stk m s)
           else
             match ex k (fcode uf) 0
-                    (mkM [] (declare_all (env_push (menv m)) (fparams uf) args) (trace m) (polls m)) with
+                    (mkM [] (declare_all (env_push_frame (menv m)) (fparams uf) args) (trace m) (polls m)) with
             | (ODone out, m2) =>
                 ex k code (ip + 3)
                   (mkM (match out with VVoid => s | _ => out :: s end)
@@ -134,8 +146,9 @@ Lemma call_frame :
   stk m = VStr name :: rev args ++ s -> lenN args = n ->
   fn_get name fns = None -> ufunc_get name funcs = Some uf ->
   List.length (fparams uf) = List.length args ->
+  (max_call_depth = 0 \/ N.of_nat (env_depth (menv m)) < max_call_depth) ->
   let callee := ex k (fcode uf) 0
-                  (mkM [] (declare_all (env_push (menv m)) (fparams uf) args) (trace m) (polls m)) in
+                  (mkM [] (declare_all (env_push_frame (menv m)) (fparams uf) args) (trace m) (polls m)) in
   match callee with
   | (ODone out, m2) =>
       ex (S k) code ip m =
@@ -147,10 +160,30 @@ Lemma call_frame :
       (OErr x, mkM s (env_truncate (menv m2) (env_depth (menv m))) (trace m2) (polls m2))
   end.
 Proof.
-  intros code ip m name n args s k uf Hb Ho Hip Hp Hs Hn Hf Hu Hlen callee.
+  intros code ip m name n args s k uf Hb Ho Hip Hp Hs Hn Hf Hu Hlen Hd callee.
   rewrite (exec_call k code ip m name n args s Hb Ho Hip Hp Hs Hn), Hf, Hu.
   apply Nat.eqb_eq in Hlen. rewrite Hlen. cbn [negb].
+  rewrite (depth_ok _ Hd).
   fold callee. destruct callee as [[out|x] m2]; reflexivity.
+Qed.
+
+(* the limit on nesting: with the limit in force, a user function called while
+   that many scopes (or more) are open is a run-time error - nothing of the
+   callee runs, the arguments are popped, nothing else changes *)
+Lemma too_deep_is_error :
+  forall code ip m name n args s k uf,
+  byte_at code ip = Some OpCall -> operand_at code ip = Some n -> ip < lenN code -> polls m = None ->
+  stk m = VStr name :: rev args ++ s -> lenN args = n ->
+  fn_get name fns = None -> ufunc_get name funcs = Some uf ->
+  List.length (fparams uf) = List.length args ->
+  max_call_depth <> 0 -> max_call_depth <= N.of_nat (env_depth (menv m)) ->
+  exists m', ex (S k) code ip m = (OErr EScript, m').
+Proof.
+  intros code ip m name n args s k uf Hb Ho Hip Hp Hs Hn Hf Hu Hlen Hz Hd.
+  rewrite (exec_call k code ip m name n args s Hb Ho Hip Hp Hs Hn), Hf, Hu.
+  apply Nat.eqb_eq in Hlen. rewrite Hlen. cbn [negb].
+  apply N.eqb_neq in Hz. apply N.leb_le in Hd. rewrite Hz, Hd. cbn [negb andb].
+  eexists. reflexivity.
 Qed.
 
 End Call.
